@@ -23,7 +23,7 @@ store as the turn's own observation left it. -/
 theorem C01_compose_hybrid_reads_gel (s : State α) (t : TurnIn α) (o : Oracles α) (qo : QOracle α)
     (hq : lookupQ o (qOf w c s t) = some qo) (hc : c.orchCacheOn = false) :
     (runTurn w c s t o).t2 =
-      Clem.T2.t2 (t2Cfg w c o qo) c.tiers (withCos w.eps qo.cos)
+      Clem.T2.t2 (t2Cfg w c o qo) c.tiers (withCos (epsAt w s.mem o) qo.cos)
         { c.hyb with edges := (Clem.Gel.ensure s.gel).edges.map (fun e => ⟨e.src, e.dst, e.w⟩), fail := false }
         (qualOf c qo) (t2K c) c.residualCap (gnodes w) := by
   rw [runTurn_t2]
@@ -37,10 +37,10 @@ theorem C01_compose_rerank_perm (s : State α) (ts : List (TurnIn α × Oracles 
   intro o ho
   obtain ⟨s', t, hg, _, rfl⟩ := mem_outs_good w c hs ho
   rw [runTurn_t2]
-  rcases t2Of_good w c s' t.1 t.2 hg with h0 | ⟨o', qo, hh, qq, h0⟩
+  rcases t2Of_good w c s' t.1 t.2 hg with h0 | ⟨o', qo, hh, qq, mem', h0⟩
   · rw [h0]; exact List.Perm.refl _
   · rw [h0]
-    exact Clem.T2.C11_t2_retrieved_perm (t2Cfg w c o' qo) c.tiers (withCos w.eps qo.cos) hh qq (t2K c)
+    exact Clem.T2.C11_t2_retrieved_perm (t2Cfg w c o' qo) c.tiers (withCos (epsAt w mem' o') qo.cos) hh qq (t2K c)
       c.residualCap (gnodes w)
 
 end AnyCarrier
